@@ -272,7 +272,7 @@ def coq_property_file(pid, timeout=1500):
         if c.startswith("Closed"):
             res["theorems"].append((name, "closed"))
         else:
-            axs = re.findall(r"^([A-Za-z0-9_.']+)\s*:", c, re.M)
+            axs = [a for a in re.findall(r"^([A-Za-z0-9_.']+)\s*:", c, re.M) if a != "Axioms"]
             res["theorems"].append((name, ", ".join(axs)))
             for a in axs:
                 if a not in ALLOWED_AXIOMS and a.split(".")[-1] not in ALLOWED_AXIOMS:
